@@ -8,13 +8,12 @@ Import ListNotations.
 Local Open Scope R_scope.
 
 Lemma dn_kernel_nodecay_is_lumped (flag psl lh lw ll uv dt s : R) (up lat vol q fpf : list R) :
-  flag < 1 / 2 -> vol <> [] ->
+  flag < 1 / 2 ->
   @instream_dissolved_nutrient_decay_kernel R RArith [flag; psl; lh; lw; ll; uv; dt] [s] [up; lat; vol; q; fpf] =
   let r := run (Rlumped_step (psl / 31557600) dt) s (lumped_rows up (Some lat) q vol) in
   Some ([zeros (snd r); map lo_outflowLoad (snd r); zeros (snd r); map lo_pointSourceLoad (snd r)], [fst r]).
 Proof.
-  intros Hf Hv. unfold instream_dissolved_nutrient_decay_kernel.
-  destruct vol as [|v0 vr]; [congruence|].
+  intros Hf. unfold instream_dissolved_nutrient_decay_kernel.
   unfold DN_SECONDS_PER_YEAR, lumped_transport. runfold.
   assert (E : Rltb flag (1 / 2) = true) by (apply Rltb_true; exact Hf). rewrite E.
   replace (psl / (31557600 / 1)) with (psl / 31557600) by (field).
@@ -29,7 +28,10 @@ Theorem dn_nodecay_budget (psl dt s : R) (up lat vol q : list R) :
   fst (run (Rlumped_step p dt) s rows) + outflows (lumped_outflow dt) rows (snd (run (Rlumped_step p dt) s rows)).
 Proof. cbn zeta. apply lumped_run_budget. Qed.
 
-(** an empty series makes the Go code index element 0 of an empty array *)
-Lemma dn_kernel_empty_panics (flag psl lh lw ll uv dt s : R) (up lat q fpf : list R) :
-  @instream_dissolved_nutrient_decay_kernel R RArith [flag; psl; lh; lw; ll; uv; dt] [s] [up; lat; []; q; fpf] = None.
-Proof. reflexivity. Qed.
+(** an empty series: no output, the stored mass is carried unchanged (fix b73cc97), decay on or off *)
+Lemma dn_kernel_empty (flag psl lh lw ll uv dt s : R) :
+  @instream_dissolved_nutrient_decay_kernel R RArith [flag; psl; lh; lw; ll; uv; dt] [s] [[]; []; []; []; []] =
+  Some ([[]; []; []; []], [s]).
+Proof.
+  unfold instream_dissolved_nutrient_decay_kernel. destruct (flag <? of_q 1 2)%ar; reflexivity.
+Qed.
